@@ -58,8 +58,11 @@ fn has_marked_member(marks: &[TPath], obj: &TPath) -> bool {
 pub const DEFECTS: &[&str] = &[
     "not_array", "arity0", "arity1", "arity4", "member_in_placeholder", "element_in_sd", "name_not_string",
     "name_sd", "name_dots", "collision", "dup_same_sd", "dup_two_sd", "dup_two_placeholders", "dup_sd_and_placeholder",
-    "dup_unpresented", "sd_string", "sd_object", "sd_number", "placeholder_extra", "alg_unknown", "alg_case", "alg_missing",
+    "dup_unpresented", "sd_string", "sd_object", "sd_number", "placeholder_extra", "alg_unknown", "alg_case",
     "alg_not_string",
+    // a missing _sd_alg is NOT on this list: the specification prescribes the default sha-256 for it (it is an
+    // accept case of C08, tag no_sd_alg); before repair F18 the library rejected it and this generator wrongly
+    // demanded that
 ];
 
 pub fn generate(thorough: bool, seed: u64, em: &mut Emitter) {
@@ -176,7 +179,6 @@ pub fn generate(thorough: bool, seed: u64, em: &mut Emitter) {
             }
             "alg_unknown" => post_alg = Some(json!(*r.pick(&["md5", "sha-1", "sha256", "sha-3-256", ""]))),
             "alg_case" => post_alg = Some(json!(*r.pick(&["SHA-256", "Sha-256", "sha-256 "]))),
-            "alg_missing" => post_alg = Some(Value::Null),
             "alg_not_string" => post_alg = Some(json!(256)),
             _ => unreachable!(),
         }
